@@ -624,6 +624,10 @@ def g_transpose(ctx, rng, i):
                 pass
 
 
+from .c09 import _tolerant  # noqa: E402
+
+g_getitem, g_getitem_structured, g_arith, g_point_arith, g_transpose = (_tolerant(f) for f in (g_getitem, g_getitem_structured, g_arith, g_point_arith, g_transpose))
+
 GROUPS = [
     {"name": "getitem", "fn": g_getitem, "quick": 6000, "thorough": 80000},
     {"name": "getitem_structured", "fn": g_getitem_structured, "quick": 700, "thorough": 7000},
@@ -649,13 +653,18 @@ def k1_int_with_array(rec, feat):
 
 
 def k3_separated_arrays(rec, feat):
-    """Array indices separated by a slice / None / Ellipsis (numpy moves the broadcast axes to the front)."""
-    return _is_getitem(rec) and bool(feat.get("separated")) and not feat.get("int_with_array")
+    """Array indices separated from each other (numpy moves the broadcast axes to the front) in an expression that also contains a None or an
+    Ellipsis that expands to no axis: the bookkeeping removes source axes by value from a list whose positions were shifted by the None /
+    does not see the empty Ellipsis as a separator.  Separated array indices without None and without an empty Ellipsis are handled
+    correctly by the library and are therefore NOT covered by this finding."""
+    return (_is_getitem(rec) and bool(feat.get("separated")) and not feat.get("int_with_array")
+            and (feat.get("n_none", 0) > 0 or bool(feat.get("zero_width_ellipsis"))))
 
 
 def k4_ellipsis_with_ndmask(rec, feat):
     """An Ellipsis in the same expression as a boolean mask with more than one dimension."""
-    return _is_getitem(rec) and bool(feat.get("ellipsis")) and feat.get("n_bool_nd", 0) > 0 and not feat.get("int_with_array") and not feat.get("separated")
+    return (_is_getitem(rec) and bool(feat.get("ellipsis")) and feat.get("n_bool_nd", 0) > 0 and not feat.get("int_with_array")
+            and "Too many indices" in rec["what"])
 
 
 def k5_rewrap_of_cut_tensor_axes(rec, feat):
